@@ -300,7 +300,13 @@ def run(pid, tier, seed, t0, asbuilt=None):
         all_viol += mine
 
     # ---- self-test of the monitors on corrupted copies of the real runs (vacuity / binding guard; tool error if it fails)
-    selftest = pool_selftest.run(pid, [gtrace, rtrace])
+    # (on a tree that breaks a property the recorded runs themselves are abnormal and an injection may not apply:
+    #  the self-test only matters for a run that would otherwise pass)
+    try:
+        selftest = pool_selftest.run(pid, [gtrace, rtrace])
+        selftest_error = None
+    except vlib.ToolError as ex:
+        selftest, selftest_error = {"error": str(ex)}, ex
 
     # ---- C06 at the key level: PoolKeys.tla (token map) + the many-origins scenario on the real pool
     keys = None
@@ -356,6 +362,8 @@ def run(pid, tier, seed, t0, asbuilt=None):
     model_flags = sorted({v["tag"] for v in mviol})
 
     code, unlisted = verdict.finish()
+    if selftest_error is not None and not verdict.violations and not all_viol:
+        raise selftest_error
     cov = mc.coverage()
     never = sorted(a for a, (dist, taken) in cov.items() if taken == 0)
     coverage = {
